@@ -594,7 +594,14 @@ class Interp:
         fi = self.p.functions.get(qn)
         if fi is None:
             fi = FunctionInfo(qn or s.name, s.name, s, frame.module, None, frame.fn, [])
-        st.env[s.name] = AV(ty='func', fn=fi, closure=frame)
+        fv = AV(ty='func', fn=fi, closure=frame)
+        if frame.fn is not None and s.decorator_list:
+            # decorators of a nested function: functools.lru_cache / functools.wraps are applied (others leave the function as it is)
+            for d in reversed(s.decorator_list):
+                dv = self.eval(d, frame, st)
+                if dv is not None and (dv.ty == 'decorator' or (dv.ty == 'ext' and (dv.qual or '').startswith('functools.'))):
+                    fv = self.call_value(dv, [fv], {}, frame, st, d if isinstance(d, ast.Call) else ast.copy_location(ast.Call(func=d, args=[], keywords=[]), d))
+        st.env[s.name] = fv
         return st
 
     def x_ClassDef(self, s, frame, st):
@@ -1149,6 +1156,23 @@ class Interp:
             kw = dict(func.pkwargs or {})
             kw.update(kwargs)
             return self.call_value(func.target, list(func.pargs or []) + list(args), kw, frame, st, n)
+        if ty == 'decorator':
+            q = func.qual or ''
+            if q in ('functools.lru_cache', 'functools.cache') and len(args) == 1 and not kwargs and args[0].ty in ('func', 'lambda', 'partial', 'symfunc', 'lru_cached'):
+                return AV(ty='lru_cached', target=args[0], deco_args=list(func.args or []), deps=args[0].deps)
+            if q == 'functools.wraps' and len(args) == 1:
+                return args[0]  # metadata only
+            self.note(f'call of unknown callee {norm_text(n.func)[:60]}', n)
+            return AV(deps=self.model.deps_of(args, kwargs))
+        if ty == 'lru_cached':
+            # the memo table is keyed on the arguments of this call
+            self.emit('lru_call', n, target=func.target, args=list(args), kwargs=dict(kwargs), deco_args=func.deco_args)
+            return self.call_value(func.target, args, kwargs, frame, st, n)
+        if ty == 'weakref' and not args and not kwargs:
+            return func.of if func.of is not None else TOP  # dereferencing a weak reference
+        if ty == 'symfunc':
+            self.emit('symfunc_call', n, name=func.name, args=list(args), kwargs=dict(kwargs))
+            return AV(ty=None, symresult=func.name)
         if ty == 'opcaller' and len(args) == 1:
             # operator.methodcaller / attrgetter / itemgetter applied to one object
             obj = args[0]
